@@ -97,6 +97,12 @@ CHECKS = {
         text="Age runs: 8-20 files whose atime and mtime are set independently to now-(k*period+e) for period in {day, minute}, k in {0,1,2,3,5,30,400}, e in {0,+-1ns,+-1ms,+-1s,half}; in half of the runs now = ctime(file) + k*period + e; all six -Xtime/-Xmin tests with N,+N,-N around every value. Newer runs: reference files with three different timestamps; entries whose atime/mtime is Y(ref) -1ns/0/+1ns (+-1us, +-1s); a second reference placed within 1ns of an entry's ctime; all nine -newerXY, -newer, -anewer, -cnewer. Quick ~450k evaluations, ~250k on a period boundary, ~4k within 1ns of the reference.",
         note="-daystart, -newerXt, birth time not judged; ages >= 0; in-process only (the binary cannot be given a clock).",
         ref="DESIGN.md section 4 C15"),
+    "C16": dict(
+        technique="runtime monitoring: independent renderer (Python, from os.lstat/os.stat/os.readlink and string operations on the path text) compared byte-for-byte with the output captured from the real find (in-process, binary sample, -fprintf files read back); oracle-free identities %p = -print and %H/%P recomposition",
+        level="exploration",
+        text="Random format strings (1-8 pieces: ASCII and multi-byte literals, every escape incl. \\NNN, %%, directives p f h H P d s n i U G m y Y l with optional '-' flag and width 0-40) rendered for every entry of a tree with all file types, links to file/dir/fifo/dangling, setuid/setgid/sticky modes, foreign owners, hard links and multi-byte names, under 19 starting-point spellings (r, ./r, r/, ., ./, absolute, absolute/, sub-directory, link to directory, link/, link to file, dangling link, file, several roots, r//, inner //) and -P/-H/-L. Quick ~3200 formats / ~50k (format, entry) renderings, 180 (directive, mode, flag, width) cells.",
+        note="Known finding percent-H-root-with-trailing-slash matched by exact re-rendering. Not judged: leading zeros of %m, \\NNN above 177, width on non-ASCII values, %Y under -H/-L and for dangling links, %l for links the follow mode resolves, %h with // or directly below /, %f/%h of dot components.",
+        ref="DESIGN.md section 4 C16"),
     "C19": dict(
         technique="runtime monitoring: scripted recorder outcomes, exit status and number of invocations started vs the documented function; bounded-exhaustive over outcome classes",
         level="exploration",
